@@ -6,6 +6,14 @@ CHECKS = {
    technique="stateless exhaustive enumeration of operation sequences on the real scheduler vs. set-valued reference model",
    text="Every operation sequence up to the stated depth over a 29-letter alphabet (2 senders, sequence windows at 0, 2^63 and 2^64-1, tied priorities, capacities 1..3) is executed on the real mainQueueScheduler and compared step by step with a reference model; exhaustive within the bound, nothing sampled.",
    note="Drives the package-private scheduler through an overlay-injected forwarding file; the mutex wrapper mainQueue is trusted; bounds: depth 4 (quick) / 5 (thorough), 2 senders, 3 offsets per window."),
+ "C02": dict(engine="kvmc", cat="model_checking", ref="§4 C02",
+   technique="exhaustive enumeration of all contents sets over an adversarial key alphabet + closure step on the real tree vs. independent contents-only hasher",
+   text="All 65,536 contents sets over 8 adversarial keys x {absent,'',a,b} are built on the real tree by four constructions; the root must equal an independent canonical-trie hash computed from the sorted key set alone and roots must be pairwise distinct. A closure step (every letter from every canonical state gives the canonical physical shape) extends the result to every finite no-commit history; commit/dirty interplay, both backends, tiny caches, reopen and write-log replay are enumerated over a sub-alphabet.",
+   note="Trusted: SHA-512/256, Go; bounded to the key/value alphabet; node capacity 1 is a recorded known finding."),
+ "C03": dict(engine="kvmc", cat="model_checking", ref="§4 C03",
+   technique="stateless exhaustive enumeration of operation sequences on the real tree + overlay stack vs. ordered-map reference",
+   text="Every sequence of depth 3 (quick) / 4 (thorough) over 27 letters (insert, remove, remove-existing, get, seek, tree commit, reopen, overlay push / commit / discard) from 4 committed initial states, 6 cache settings, badger and pathbadger, is executed on the real tree with up to 3 stacked overlays and compared (all gets, scans from 14 seek positions, on the top of the stack, after committing overlays, after commit + reopen) with a Go map.",
+   note="Trusted: the reference map; excluded: mutating a tree under a live iterator. Two cache-capacity defects are recorded as known findings and still explored."),
 }
 NA = {}
 def main():
@@ -31,7 +39,7 @@ def main():
         engines.setdefault(c["engine"],[]).append(pid)
     m={"version":1,
        "setup_cmd":"bin/setup",
-       "hooks":{"guard":"verif","enable":"go build -tags verif -overlay .gen/overlay.json (overlay ADDS //go:build verif forwarding files from harness/overlay/ to packages of /repo/go; nothing is committed to /repo for instrumentation)",
+       "hooks":{"guard":"verif","enable":"go build -tags verif -overlay <generated json> (overlay ADDS //go:build verif forwarding files from harness/overlay/ to packages of /repo/go; nothing is committed to /repo for instrumentation)",
                 "baseline_off_cmd":"/verif/bin/baseline_off","source_commits":[],"add_only":True},
        "engines":[{"name":e,"path":f"harness/cmd/{e}","serves_properties":sorted(p)} for e,p in sorted(engines.items())],
        "checks":checks,
